@@ -169,3 +169,56 @@ Print Assumptions c07_refuted_fresh_capture. Print Assumptions c07_refuted_fresh
 Print Assumptions c07_refuted_freshness. Print Assumptions c07_refuted_unguarded.
 Print Assumptions c07_multi_head. Print Assumptions c07_bodyless.
 Print Assumptions c07_example_hypotheses. Print Assumptions c07_example_runs.
+
+(* ================= the desugarer's OUTPUT is a well-formed core program =================
+   The link that makes the planner theorem (C01 c01_planner_output_is_valid) applicable to every program the front end produces:
+   proofs in Syntax/EndToEnd*.v; the end-to-end statements are in Props/C01.v. *)
+From Coq Require Import List ZArith Bool Arith Ascii String.
+From AV Require Import Engine.Core.
+From AV Require Import Engine.Sem.
+From AV Require Import Engine.Eval.
+From AV Require Import Engine.Naive.
+From AV Require Import Engine.InterfaceAgg.
+From AV Require Import Engine.MainAgg.
+From AV Require Import Engine.Vocab.
+From AV Require Import Plan.PlanModel.
+From AV Require Import Plan.PlanWf.
+From AV Require Import Syntax.Surface.
+From AV Require Import Syntax.Desugar.
+From AV Require Import Syntax.ToCore.
+From AV Require Import Syntax.C07Main.
+From AV Require Import Syntax.C07Example.
+From AV Require Import Syntax.EndToEndDefs.
+From AV Require Import Syntax.EndToEndWf.
+From AV Require Import Syntax.EndToEndNoAgg.
+From AV Require Import Syntax.EndToEnd.
+From AV Require Import Syntax.EndToEndSugared.
+Import ListNotations.
+(* ================= proposed for Props/C07.v ================= *)
+(* THE DESUGARER'S OUTPUT IS A WELL-FORMED CORE PROGRAM, for every state of the process-wide name counters: relations used
+   with their arity, variables bound before use, a binder never rebinds, a new variable occurs once among the arguments of
+   its clause, heads bound (Plan/PlanWf.v wf_core = the hypothesis of the planner theorem PlanProofs.compile_model_valid).
+   Surface hypotheses (boolean): names outside the generated name space of their rule (ToCore.names_ok, a conjunct of
+   wf_surface) and the binding discipline EndToEndDefs.wf_binding (arities; bound before use; `let` / `if let` / `for` /
+   aggregate results / ?pattern variables NEW) on every conjunction of the disjunction product. *)
+Theorem c07_desugar_output_wf_core : forall arities P cs Pc,
+  forallb names_ok P = true -> wf_binding arities P = true ->
+  core_of_prog (desugar_prog cs P) = Some Pc -> wf_core arities Pc = true.
+Proof. exact desugar_output_wf_core. Qed.
+(* no aggregation / negation in the source (through disjunctions) -> none in the core program *)
+Theorem c07_desugar_output_no_agg : forall P cs Pc,
+  no_agg_surface P = true -> core_of_prog (desugar_prog cs P) = Some Pc -> no_agg Pc = true.
+Proof. exact desugar_output_no_agg. Qed.
+(* non-vacuity: C07's example with every surface form satisfies the discipline and its desugaring is wf_core by computation *)
+Example c07_example_wf_binding : wf_binding ex_arities ex_prog = true.
+Proof. exact ex_wf_binding. Qed.
+Example c07_example_output_wf_core : exists Pc, core_of_prog (desugar_prog [] ex_prog) = Some Pc /\ wf_core ex_arities Pc = true.
+Proof. exact ex_output_wf_core. Qed.
+(* wf_surface alone does not give wf_core:  res(x, y) <-- foo(x, y), let y = f(x)  rebinds y *)
+Example c07_wf_surface_not_enough :
+  wf_surface shadow_prog = true /\ wf_binding ex_arities shadow_prog = false
+  /\ exists Pc, core_of_prog (desugar_prog [] shadow_prog) = Some Pc /\ wf_core ex_arities Pc = false.
+Proof. exact wf_surface_not_enough. Qed.
+
+Print Assumptions c07_desugar_output_wf_core. Print Assumptions c07_desugar_output_no_agg.
+Print Assumptions c07_example_wf_binding. Print Assumptions c07_example_output_wf_core. Print Assumptions c07_wf_surface_not_enough.
